@@ -1,5 +1,6 @@
 import Heathcliff.Proofs.C10H
 import Heathcliff.Proofs.C10I
+import Heathcliff.Proofs.GenRns2
 
 /- Property theorems only (statements verbatim; proofs are the helper lemmas of Heathcliff/Proofs). -/
 namespace HC.C10
@@ -82,5 +83,53 @@ theorem modTAndDivideQLast_spec : type_of% @HC.modTAndDivideQLast_spec := @HC.mo
 theorem decompose_spec_of {b : RNSBase} (hb : b.WF) {v : Nat} (hv : v < 2^(64 * b.size)) (hd : 1 < b.size ∨ v < b.prod) :
     ∃ rs, b.decompose v = .ok rs ∧ rs.size = b.size ∧ ∀ i, i < b.size → rs.getD i 0 = v % (b.q i).value :=
   HC.decompose_spec_of hb hv hd
+
+/-! ### translator tie, phase 4c (TRANSLATOR.md): `Gen/RnsFns.lean` is regenerated from src/util/polysmallmod.rs, src/modulus.rs and src/util/rns.rs
+    on every run; the generated functions EQUAL the hand model (statements as proved in Proofs/GenRns.lean, Proofs/GenRns2.lean). -/
+
+/-- `Modulus::reduce` -/
+theorem gen_modulus_reduce_eq (m : Modulus) (x : Nat) : HC.GenR.modulus_reduce m x = barrett64 x m := HC.gr_modulus_reduce_eq m x
+/-- the component-wise helpers of polysmallmod.rs (iterator chains in the source) are `mapM`s of the hand model's word functions -/
+theorem gen_modulo_eq (c : List Nat) (m : Modulus) (r : List Nat) (h : r.length = c.length) :
+    HC.GenR.modulo c m r = c.mapM (fun x => barrett64 x m) := HC.gr_modulo_eq c m r h
+theorem gen_negate_inplace_eq (l : List Nat) (m : Modulus) : HC.GenR.negate_inplace l m = l.mapM (fun x => negateMod x m) := HC.gr_negate_inplace_eq l m
+theorem gen_add_scalar_inplace_eq (l : List Nat) (s : Nat) (m : Modulus) :
+    HC.GenR.add_scalar_inplace l s m = l.mapM (fun x => addMod x s m) := HC.gr_add_scalar_inplace_eq l s m
+theorem gen_sub_scalar_inplace_eq (l : List Nat) (s : Nat) (m : Modulus) :
+    HC.GenR.sub_scalar_inplace l s m = l.mapM (fun x => subMod x s m) := HC.gr_sub_scalar_inplace_eq l s m
+theorem gen_sub_inplace_eq (a b : List Nat) (m : Modulus) (h : a.length ≤ b.length) :
+    HC.GenR.sub_inplace a b m = (List.range' 0 a.length).mapM (fun j => subMod (a.getD j 0) (b.getD j 0) m) := HC.gr_sub_inplace_eq a b m h
+theorem gen_multiply_operand_inplace_eq (l : List Nat) (o : MulOperand) (m : Modulus) :
+    HC.GenR.multiply_operand_inplace l o m = l.mapM (fun x => mulOperandMod x o m) := HC.gr_multiply_operand_inplace_eq l o m
+theorem gen_multiply_scalar_inplace_eq (l : List Nat) (s : Nat) (m : Modulus) :
+    HC.GenR.multiply_scalar_inplace l s m = l.mapM (fun x => mulMod x s m) := HC.gr_multiply_scalar_inplace_eq l s m
+
+/-- `RNSTool::divide_and_round_q_last_inplace` generated from the source = `RNSTool.divideAndRoundQLast` on the flat buffer `flatP p`
+    (component i, coefficient j at i·n + j).  `self.base_q.len()`, `base_at(i)`, `coeff_count`, `inv_q_last_mod_q[i]` are inputs of the generated
+    function, instantiated with the model tool's fields.  No range assumption on the coefficients. -/
+theorem gen_divide_and_round_q_last_inplace_eq (r : RNSTool) (p : RnsPoly)
+    (hs : 1 ≤ r.baseQ.size) (hq : ∀ i, i < r.baseQ.size → (r.baseQ.q i).WF) (hinv : r.baseQ.size - 1 ≤ r.invQLastModQ.size)
+    (hsn : r.baseQ.size * r.n < 2^64) (hs64 : r.baseQ.size < 2^64) (hp : HC.gr_Shape r p) :
+    HC.GenR.divide_and_round_q_last_inplace (HC.flatP p) r.baseQ.size r.baseQ.base.toList r.n r.invQLastModQ.toList
+      = (r.divideAndRoundQLast p).map HC.flatP := HC.gr_divide_and_round_q_last_inplace_eq r p hs hq hinv hsn hs64 hp
+
+/-- END TO END: the function generated from the Rust source returns, at position i·n + j, the residue mod q_i of the nearest integer to
+    X_j / q_last (ties up), for every polynomial holding the canonical residues of integers X_j -/
+theorem gen_divide_and_round_q_last_inplace_rounds (r : RNSTool) (p : RnsPoly) (X : Nat → Nat)
+    (hq : ∀ i, i < r.baseQ.size → (r.baseQ.q i).WF) (hs : 2 ≤ r.baseQ.size)
+    (hinv : ∀ i, i < r.baseQ.size - 1 → WFOp (r.baseQ.q i) (r.invQLastModQ.getD i default) ∧
+        ((r.invQLastModQ.getD i default).operand * (r.baseQ.q (r.baseQ.size - 1)).value) % (r.baseQ.q i).value = 1)
+    (hinvs : r.baseQ.size - 1 ≤ r.invQLastModQ.size)
+    (hsn : r.baseQ.size * r.n < 2^64) (hs64 : r.baseQ.size < 2^64) (hp : HC.gr_Shape r p)
+    (hX : ∀ i j, i < r.baseQ.size → j < r.n → (p.getD i #[]).getD j 0 = X j % (r.baseQ.q i).value) :
+    ∃ out, HC.GenR.divide_and_round_q_last_inplace (HC.flatP p) r.baseQ.size r.baseQ.base.toList r.n r.invQLastModQ.toList = .ok out ∧
+      ∀ i j, i < r.baseQ.size - 1 → j < r.n →
+        out.getD (i * r.n + j) 0 = ((X j + (r.baseQ.q (r.baseQ.size - 1)).value / 2) / (r.baseQ.q (r.baseQ.size - 1)).value) % (r.baseQ.q i).value :=
+  HC.gr_divide_and_round_q_last_inplace_rounds r p X hq hs hinv hinvs hsn hs64 hp hX
+
+/-- `RNSTool::mod_t_and_divide_q_last_ntt_inplace` generated from the source = `RNSTool.modTAndDivideQLastNtt`; the calls `polymod::intt` /
+    `polymod::ntt` with table i are abstract function inputs of the generated code, instantiated with the model's `intt` / `ntt` of `tables[i]` -/
+theorem gen_mod_t_and_divide_q_last_ntt_inplace_eq : type_of% @HC.gr_mod_t_and_divide_q_last_ntt_inplace_eq :=
+  @HC.gr_mod_t_and_divide_q_last_ntt_inplace_eq
 
 end HC.C10
